@@ -88,6 +88,12 @@ def run(ck, prog, ctx):
         owners.add(owner)
         i = cnt.get(owner, 0)
         cnt[owner] = i + 1
+        if owner.endswith("sub_ontology") and b.kind == "Closure":
+            # the filter of sub_ontology KEEPS a term iff its ancestors (and itself) share nothing with the modifier roots
+            from engines import bool_polarity as _bp14
+            pol14, _ = _bp14(b, Prov(prog, inline=False), lambda c_: c_.method == "is_empty")
+            if pol14 is not None:
+                ck.ob("SIBLING", "membership/%s/%d/keeps-non-modifiers" % (owner, i), pol14 == 1, "%s keeps a term %s" % (owner, "iff the intersection with the modifier roots is empty" if pol14 == 1 else "iff the intersection with the modifier roots is NOT empty (the phenotype terms are dropped, the modifiers kept)"), where=b.where(s["term"].line))
         ck.ob("SIBLING", "membership/%s/%d" % (owner, i), s["inclusive"],
               "%s tests the ontology's %s roots against %s%s" % (owner, s["root"], " ∪ ".join(s["fields"]), "" if s["inclusive"] else
                                                                  (": the DIRECT parents are read where the ancestor closure is meant, so a term deeper than one level below a %s root is not recognised" % s["root"] if "all_parents" not in s["fields"] else
